@@ -403,9 +403,25 @@ pub fn draw_case(seed: u64, index: u64) -> Case {
         Case::Single { opts, via_action, style }
     } else {
         // mostly small batches; one in 12 is large enough to keep every rayon worker busy for a while
-        let samples = if rng.random_range(0..12) == 0 { rng.random_range(40..260) } else { rng.random_range(0..=12) };
+        let mut samples = if rng.random_range(0..12) == 0 { rng.random_range(40..260) } else { rng.random_range(0..=12) };
         let mut faults = vec![];
-        if samples > 0 && rng.random_range(0..2) == 0 {
+        // one batch in 10 is a *mass-fault* plan: the number of failing writes is varied across
+        // magnitudes and around powers of two (255/256/257/511/512, all, all but one)
+        let mass = rng.random_range(0..10) == 0;
+        if mass {
+            samples = [256usize, 257, 300, 512, 513, 777][rng.random_range(0..6)];
+            let f = [samples, samples - 1, 255, 256, 257, 511, 512][rng.random_range(0..7)].min(samples);
+            // a random subset of size f
+            let mut idx: Vec<usize> = (0..samples).collect();
+            for i in (1..idx.len()).rev() {
+                let j = rng.random_range(0..=i);
+                idx.swap(i, j);
+            }
+            for &k in idx.iter().take(f) {
+                faults.push((k, if rng.random_range(0..8) == 0 { FsFault::Enospc } else { FsFault::Eisdir }));
+            }
+        }
+        if !mass && samples > 0 && rng.random_range(0..2) == 0 {
             let n = rng.random_range(1..=3.min(samples));
             for _ in 0..n {
                 let k = rng.random_range(0..samples);
@@ -418,6 +434,14 @@ pub fn draw_case(seed: u64, index: u64) -> Case {
                     faults.push((k, f));
                 }
             }
+        }
+        let mut opts = opts;
+        if mass {
+            opts.min = Some(0);
+            opts.max = Some(3);
+            opts.mutators.clear();
+            opts.rate = None;
+            opts.unsafe_m = false;
         }
         let dir_is_file = faults.is_empty() && rng.random_range(0..12) == 0;
         let dir_preexists = !faults.is_empty() || dir_is_file || rng.random_range(0..2) == 0;
